@@ -29,6 +29,16 @@ func genDecoderSpec(r *RNG, target, class string) DecoderSpec {
 		d.WindowSize = r.Pick(1, 2, 3, 7, 8, 9, 16, 64)
 	}
 	ws := d.WindowSize
+	if r.Chance(0.02) {
+		// boundary that Verify must reject (BufferSize <= WindowSize); if a
+		// tree accepts it, the run exercises it
+		d.BufferSize = ws - r.Intn(2)
+		if d.BufferSize < 1 {
+			d.BufferSize = 1
+			d.WindowSize = 1
+		}
+		return d
+	}
 	switch r.Intn(7) {
 	case 0:
 		d.BufferSize = ws + 1
@@ -71,7 +81,18 @@ func genLits(r *RNG, n int) []byte {
 
 // itemSize draws the size of one item relative to the room BS-WS.
 func itemSize(r *RNG, g *dgen, ws, bs int) int {
+	n := itemSize0(r, g, ws, bs)
+	if n < 0 {
+		n = 0
+	}
+	return n
+}
+
+func itemSize0(r *RNG, g *dgen, ws, bs int) int {
 	room := bs - ws
+	if room < 0 {
+		room = 0
+	}
 	fit := room
 	if ws < fit {
 		fit = ws
